@@ -30,7 +30,10 @@ import re
 prev = open('/tmp/REGRESSION.prev').read().splitlines()
 part = {l.split('|')[1].strip(): l for l in open('/tmp/REGRESSION.part').read().splitlines() if l.startswith('| ') and not l.startswith('| seed')}
 out = [part.get(l.split('|')[1].strip(), l) if l.startswith('| ') and not l.startswith('| seed') else l for l in prev]
-out.append("Rows re-run individually afterwards: " + ", ".join(sorted(part)))
+have = {l.split('|')[1].strip() for l in prev if l.startswith('| ')}
+last = max(i for i, l in enumerate(out) if l.startswith('| '))
+out[last + 1:last + 1] = [part[k] for k in sorted(part) if k not in have]        # seeds stored since the last full run
+out.append("Rows re-run (or added) individually afterwards: " + ", ".join(sorted(part)))
 open('/verif/seeded/REGRESSION.md', 'w').write("\n".join(out) + "\n")
 PY
 fi
